@@ -19,12 +19,12 @@ pub struct GraphCase {
     pub edges: Vec<(u8, u8, u8)>,
     /// 0 unweighted, 1 positive dyadic k/4, 2 non-negative dyadic with zeros, 3 tie-rich {1,2},
     /// 4 positive non-dyadic floats, 5 tiny dyadic (k+1)*2^-40, 6 large dyadic (k+1)*2^30,
-    /// 7 large non-dyadic (hundreds to thousands), 8 symmetric around one {0.5, 1.5, 0.25, 1.75}
+    /// 7 large non-dyadic (hundreds to thousands), 8 symmetric around one {0.5, 1.5, 0.25, 1.75}, 9 signed {+-0.5, +-1, +-2, 1.5}
     pub wmode: u8,
     /// when > 0 the fields n / shape / edges are ignored and a sparse graph with this many nodes is
     /// generated procedurally from `big_seed` (ring + 2 chords per node; single-edge, no loops)
     #[serde(default)]
-    pub big_n: u16,
+    pub big_n: u32,
     #[serde(default)]
     pub big_seed: u64,
 }
@@ -101,7 +101,9 @@ pub fn decode_weight(wmode: u8, r: u8) -> f64 {
         6 => ((r % 32) as f64 + 1.0) * (2.0f64).powi(30),
         7 => 100.1 + ((r % 32) as f64) * 101.2,
         // weights symmetric around 1: sums coincide with counts, means with 1
-        _ => [0.5, 1.5, 0.25, 1.75][(r % 4) as usize],
+        8 => [0.5, 1.5, 0.25, 1.75][(r % 4) as usize],
+        // signed weights (trust / distrust networks): sums can cancel exactly
+        _ => [1.0, -1.0, 0.5, -0.5, 2.0, -2.0, 1.5, 1.0][(r % 8) as usize],
     }
 }
 
@@ -379,10 +381,10 @@ pub fn boundary_graph_strategy(kinds: &'static [u8], max_edges: fn(usize) -> usi
 }
 
 /// procedurally generated large graphs: log-uniform node count in lo..=hi
-pub fn big_graph_strategy(kinds: &'static [u8], lo: u16, hi: u16, wmodes: &'static [u8]) -> BoxedStrategy<GraphCase> {
+pub fn big_graph_strategy(kinds: &'static [u8], lo: u32, hi: u32, wmodes: &'static [u8]) -> BoxedStrategy<GraphCase> {
     (proptest::sample::select(kinds), 0u16..1000, any::<u64>(), proptest::sample::select(wmodes))
         .prop_map(move |(kind, r, big_seed, wmode)| {
-            let n = (lo as f64 * (hi as f64 / lo as f64).powf(r as f64 / 999.0)).round() as u16;
+            let n = (lo as f64 * (hi as f64 / lo as f64).powf(r as f64 / 999.0)).round() as u32;
             GraphCase { kind, n: 0, perm: 0, shape: 0, edges: vec![], wmode, big_n: n.max(1), big_seed }
         })
         .boxed()
